@@ -41,24 +41,27 @@ func (c *coord) fire() { c.trigOnce.Do(func() { close(c.trigger) }) }
 
 // clientPeer drives one gortsplib Client through the protocol steps.
 type clientPeer struct {
-	idx     int
-	spec    PeerSpec
-	sc      *Spec
-	co      *coord
-	addr    string
-	path    string
-	c       *gortsplib.Client
-	desc    *description.Session
-	rec     *Rec // non-nil: this is the client under test, log its callbacks
-	packets atomic.Int64
-	ports   map[string]bool // local ports of the sockets this client opened
-	pmu     sync.Mutex
-	stalled *atomic.Bool // non-nil: the peer stops reading its TCP connection when set
-	sndbuf  int
-	rcvbuf  int
-	errs    []string
-	done    chan struct{}
-	seq     uint16
+	idx      int
+	spec     PeerSpec
+	sc       *Spec
+	co       *coord
+	addr     string
+	path     string
+	c        *gortsplib.Client
+	desc     *description.Session
+	rec      *Rec // non-nil: this is the client under test, log its callbacks
+	packets  atomic.Int64
+	ports    map[string]bool // local ports of the sockets this client opened
+	pmu      sync.Mutex
+	blockers []net.PacketConn // sockets of the harness that occupy odd ports
+	ledger   []ledgerEntry    // every socket the client obtained through DialContext / ListenPacket (kept referenced: no finalizer can close a forgotten one)
+	collided atomic.Int64
+	stalled  *atomic.Bool // non-nil: the peer stops reading its TCP connection when set
+	sndbuf   int
+	rcvbuf   int
+	errs     []string
+	done     chan struct{}
+	seq      uint16
 }
 
 // stallConn is a TCP connection whose Read can be frozen (a peer that stopped reading).
@@ -149,12 +152,33 @@ func (p *clientPeer) init(readTimeout, writeTimeout time.Duration) {
 			nc.(*net.TCPConn).SetWriteBuffer(p.sndbuf)
 		}
 		p.addPort("tcp", nc.LocalAddr().(*net.TCPAddr).Port)
+		p.note("tcp "+nc.LocalAddr().String(), nc)
 		return &stallConn{Conn: nc, stalled: p.stalled, closed: make(chan struct{})}, nil
 	}
+	if p.sc.UDPBlockers > 0 && (p.spec.Proto == "udp" || p.spec.Proto == "auto") {
+		// a range of 8 port pairs in which some ODD ports are taken: the client has to skip those pairs
+		base := 20000 + 16*int((p.sc.Seed>>4)%1800) + 16*p.idx%64
+		base &^= 1
+		p.c.UDPSourcePortRange = [2]uint16{uint16(base), uint16(base + 15)}
+		order := []int{3, 0, 5, 2, 6, 1}
+		for k := 0; k < p.sc.UDPBlockers && k < len(order); k++ {
+			if pc, err := net.ListenPacket("udp", fmt.Sprintf(":%d", base+2*order[k]+1)); err == nil {
+				p.blockers = append(p.blockers, pc)
+			}
+		}
+	}
 	p.c.ListenPacket = func(network, address string) (net.PacketConn, error) {
+		if p.sc.UDPCollide > 0 {
+			if _, ps, err := net.SplitHostPort(address); err == nil {
+				if port, _ := strconv.Atoi(ps); port%2 == 1 && int(p.collided.Add(1)) <= p.sc.UDPCollide {
+					return nil, fmt.Errorf("listen udp %s: bind: port busy (injected)", address)
+				}
+			}
+		}
 		pc, err := net.ListenPacket(network, address)
 		if err == nil {
 			p.addPort("udp", pc.LocalAddr().(*net.UDPAddr).Port)
+			p.note("udp "+pc.LocalAddr().String(), pc)
 			if p.sc.Blackhole {
 				if uc, ok := pc.(*net.UDPConn); ok {
 					return &blackholeConn{UDPConn: uc}, nil
@@ -213,6 +237,19 @@ func (p *clientPeer) do(step int) error {
 		bu := p.url()
 		if !record {
 			bu = p.desc.BaseURL
+		}
+		if p.sc.ExplicitBusy && i == 0 && p.spec.Proto == "udp" {
+			// explicit ports whose RTCP port is taken: the SETUP fails before anything is sent, the RTP
+			// listener it had opened must be closed again
+			if q, err := freeUDPPair(); err == nil {
+				if blk, err := net.ListenPacket("udp", fmt.Sprintf(":%d", q+1)); err == nil {
+					if _, serr := p.c.Setup(bu, p.desc.Medias[i], q, q+1); serr == nil {
+						blk.Close()
+						return nil // the port got free in between: the SETUP went through
+					}
+					blk.Close()
+				}
+			}
 		}
 		_, err := p.c.Setup(bu, p.desc.Medias[i], 0, 0)
 		return err
@@ -299,6 +336,39 @@ func (p *clientPeer) park(step int) {
 		}
 	}
 	<-p.co.closeStarted
+}
+
+// ledgerEntry is one socket handed to the library.
+type ledgerEntry struct {
+	what string
+	c    interface{ SetDeadline(time.Time) error }
+}
+
+func (e ledgerEntry) open() bool { return e.c.SetDeadline(time.Now().Add(time.Hour)) == nil }
+
+func (p *clientPeer) note(what string, c interface{ SetDeadline(time.Time) error }) {
+	p.pmu.Lock()
+	p.ledger = append(p.ledger, ledgerEntry{what, c})
+	p.pmu.Unlock()
+}
+
+// stillOpen lists the sockets the client obtained and has not closed.
+func (p *clientPeer) stillOpen() []string {
+	p.pmu.Lock()
+	defer p.pmu.Unlock()
+	var out []string
+	for _, e := range p.ledger {
+		if e.open() {
+			out = append(out, e.what)
+		}
+	}
+	return out
+}
+
+func (p *clientPeer) closeBlockers() {
+	for _, b := range p.blockers {
+		b.Close()
+	}
 }
 
 func (p *clientPeer) run() {
